@@ -7,14 +7,14 @@
 (* the operators they use, so a malformed value is a failed clause and     *)
 (* never a TLC evaluation error.                                           *)
 (***************************************************************************)
-EXTENDS FMSem
+EXTENDS FMOps
 
 Failing(cs) == SelectSeq([i \in DOMAIN cs |-> IF cs[i][2] THEN "" ELSE cs[i][1]],
                          LAMBDA n : n # "")
 Guarded(g, cs) == IF g THEN cs ELSE <<>>
 
 EmptyModel == [root |-> "", feats |-> <<>>, rels |-> <<>>, ctcs |-> <<>>]
-InitCur == [model |-> EmptyModel]
+InitCur == [model |-> EmptyModel, memo |-> <<>>]
 
 BuilderActions == {"NewModel", "AddRelation", "SetAbstract", "SetType", "SetFCard",
                    "AddAttribute", "AddConstraint"}
@@ -45,6 +45,13 @@ BuildClauses(cur, e) ==
   << <<"C03.build.shape", e.anom = <<>> >>,
      <<"C03.build.step",  SameModel(e.post, BuildExpected(cur, e))>> >>
   \o WfClauses("C03.build", e.post)
+
+---------------------------------------------------------------------------
+(* Load: the driver built args.model through the constructors without      *)
+(* logging each step; the projection must be that model.                   *)
+LoadClauses(cur, e) ==
+  << <<"C03.build.shape", e.anom = <<>> >>,
+     <<"C03.build.load",  SameModel(e.post, e.args.model)>> >>
 
 ---------------------------------------------------------------------------
 (* Constraint-level queries (C18); c is the record logged by classify()   *)
@@ -150,15 +157,40 @@ QueryClauses(cur, e) ==
   \o Guarded(ok, Concat([i \in DOMAIN R.ctc |-> ClassifyClauses(R.ctc[i])]))
 
 ---------------------------------------------------------------------------
+(* Analysis operations (C13-C16, C19).  The model must be left unchanged;  *)
+(* the value must satisfy the operation's result relation, which mentions  *)
+(* only the model of THIS execution; and over the whole history equal      *)
+(* (operation, argument, model) must give equal results whatever object    *)
+(* was used and whatever it analysed before (memo).                        *)
+ExecClauses(cur, e) ==
+  LET m  == cur.model
+      op == e.args.op
+      R  == e.ret
+      p  == PropOfOp(op)
+      ok == e.out = "value" /\ R.bad = <<>> /\ WellFormedTree(m)
+      same == {i \in DOMAIN cur.memo : cur.memo[i].op = op /\ cur.memo[i].f = e.args.f /\ cur.memo[i].model = m}
+  IN
+  << <<"C19.pure." \o op, e.anom = <<>> /\ e.post = m>>,
+     <<p \o "." \o op \o ".total", e.out = "value">>,
+     <<p \o "." \o op \o ".shape", e.out = "value" => R.bad = <<>> >>,
+     <<"C19.fresh." \o op, \A i \in same : cur.memo[i].out = e.out /\ cur.memo[i].ret = R>> >>
+  \o Guarded(ok, OpValueClauses(m, op, e.args.f, R))
+
+---------------------------------------------------------------------------
 ClassifyEventClauses(cur, e) == ClassifyClauses(e.ret)
 
 Clauses(cur, e) ==
   CASE e.a \in BuilderActions -> BuildClauses(cur, e)
     [] e.a = "Query"          -> QueryClauses(cur, e)
+    [] e.a = "Load"           -> LoadClauses(cur, e)
     [] e.a = "Classify"       -> ClassifyEventClauses(cur, e)
+    [] e.a = "Exec"           -> ExecClauses(cur, e)
     [] OTHER                  -> << <<"T.unknown-action", FALSE>> >>
 
 Advance(cur, e) ==
-  CASE e.a \in BuilderActions \cup {"Query"} -> [cur EXCEPT !.model = e.post]
+  CASE e.a \in BuilderActions \cup {"Query", "Load"} -> [cur EXCEPT !.model = e.post]
+    [] e.a = "Exec" -> [cur EXCEPT !.model = e.post,
+                                   !.memo = Append(@, [op |-> e.args.op, f |-> e.args.f, model |-> cur.model,
+                                                       out |-> e.out, ret |-> e.ret])]
     [] OTHER -> cur
 =============================================================================
